@@ -19,7 +19,8 @@
 (*   sync   [fetching, resp]  fetch flag and stored (partial) response     *)
 (*   fee    [tip, vals]    fee percentile cache (tip = 0: never computed)  *)
 (*   cnt    counters       [rej, deser, ins, reqInit, reqFollow, sendtx,   *)
-(*                          burnt]                                         *)
+(*                          burnt, respC, respP, respF, blkC]  (responses  *)
+(*                          by kind, blocks of complete responses)         *)
 (*   now    current time (seconds relative to genesis time)                *)
 (*   known  blocks of the tree whose insertion-time metrics are present    *)
 (*   flight set of heartbeat ids suspended at the get_successors await     *)
@@ -48,7 +49,8 @@ NoIng  == [b |-> 0, k |-> 0]
 NoResp == [k |-> "none"]
 NoReq  == [k |-> "none"]
 NoFee  == [tip |-> 0, vals |-> <<>>]
-ZeroCnt == [rej |-> 0, deser |-> 0, ins |-> 0, reqInit |-> 0, reqFollow |-> 0, sendtx |-> 0, burnt |-> 0]
+ZeroCnt == [rej |-> 0, deser |-> 0, ins |-> 0, reqInit |-> 0, reqFollow |-> 0, sendtx |-> 0, burnt |-> 0,
+            respC |-> 0, respP |-> 0, respF |-> 0, blkC |-> 0]
 
 InitState(c) ==
   [cfg |-> c, stable |-> <<>>, T |-> [anchor |-> 1, arr |-> <<1>>], ing |-> NoIng, next |-> {},
@@ -227,16 +229,19 @@ ApplyReply(m, reply) ==
   IF reply.k = "none" THEN m1
   ELSE IF reply.k = "reject" THEN [m1 EXCEPT !.cnt.rej = @ + 1, !.sync.resp = NoResp]
   ELSE IF reply.k = "complete"
-       THEN [m1 EXCEPT !.sync.resp = [k |-> "complete", blocks |-> reply.blocks, next |-> reply.next]]
+       THEN [m1 EXCEPT !.sync.resp = [k |-> "complete", blocks |-> reply.blocks, next |-> reply.next],
+                       !.cnt.respC = @ + 1, !.cnt.blkC = @ + Len(reply.blocks)]
   ELSE IF reply.k = "partial"
        THEN [m1 EXCEPT !.sync.resp = [k |-> "partial", item |-> reply.item, n |-> reply.n,
-                                      got |-> 0, next |-> reply.next]]
+                                      got |-> 0, next |-> reply.next],
+                       !.cnt.respP = @ + 1]
   ELSE \* follow-up page appended to the stored partial response
        LET r == m.sync.resp
            g == r.got + 1
        IN IF g = r.n
-          THEN [m1 EXCEPT !.sync.resp = [k |-> "complete", blocks |-> <<r.item>>, next |-> r.next]]
-          ELSE [m1 EXCEPT !.sync.resp.got = g]
+          THEN [m1 EXCEPT !.sync.resp = [k |-> "complete", blocks |-> <<r.item>>, next |-> r.next],
+                          !.cnt.respF = @ + 1]
+          ELSE [m1 EXCEPT !.sync.resp.got = g, !.cnt.respF = @ + 1]
 
 (***************************************************************************)
 (* Heartbeat.                                                              *)
